@@ -32,6 +32,7 @@ static void mk_src(char *src, int len) { for (int i = 0; i < len; i++) src[i] = 
 
 static void cpy_case_fn(uint64_t idx, void *ctx)
 {
+    mc_strings_prelude();
     cpy_case c; (void) ctx; cpy_decode(idx, &c);
     int alloc = c.size > 0 ? c.size : 1;
     char *src = malloc((size_t) c.srclen + 1); mk_src(src, c.srclen);
@@ -82,6 +83,7 @@ static void cat_desc(uint64_t idx, void *ctx, char *buf, size_t n)
 }
 static void cat_case_fn(uint64_t idx, void *ctx)
 {
+    mc_strings_prelude();
     cat_case c; (void) ctx; cat_decode(idx, &c);
     int alloc = c.size > 0 ? c.size : 1;
     char *src = malloc((size_t) c.srclen + 1); mk_src(src, c.srclen);
@@ -127,6 +129,7 @@ static void sub_desc(uint64_t i, void *ctx, char *buf, size_t n)
 }
 static void sub_case_fn(uint64_t i, void *ctx)
 {
+    mc_strings_prelude();
     sub_case c; (void) ctx; sub_decode(i, &c);
     char *s = malloc((size_t) c.len + 1); mk_src(s, c.len);
     char *orig = strdup(s);
@@ -256,6 +259,7 @@ static void inpl_one(int f, const char *in, int k)
 }
 static void inpl_case_fn(uint64_t idx, void *ctx)
 {
+    mc_strings_prelude();
     char in[32]; (void) ctx;
     word(idx, g_len, in);
     for (int f = 0; f < NFUNC; f++) {
@@ -277,6 +281,7 @@ static void run_desc(uint64_t idx, void *ctx, char *b, size_t n_)
 }
 static void run_case(uint64_t idx, void *ctx)
 {
+    mc_strings_prelude();
     int n, c, w; (void) ctx; run_decode(idx, &n, &c, &w);
     size_t len = (size_t) n + (w == 0 ? 4 : (w == 3 ? 0 : 2));
     char *in = malloc(len + 1), *exp = malloc(len + 1); size_t o = 0;
